@@ -1,7 +1,7 @@
 (** Correspondence check for C06, evaluated by [vm_compute] on the cases the Go harness
     wrote (what the real fabio code did, next to the inputs and the schedule). *)
 From Coq Require Import List NArith Bool Arith.
-From Fabio Require Import Lib.Outcome Lib.Bytes Lib.Verdict Model.Interleave Model.GlobCacheC06.
+From Fabio Require Import Lib.Outcome Lib.Bytes Lib.Verdict Model.Interleave Model.GlobCacheC06 Model.GlobCacheFine.
 Import ListNotations.
 
 Definition oeq (a b : outcome str) : bool :=
@@ -30,6 +30,15 @@ Definition has_hole (t : uobj) : bool := existsb (fun p => match p with Hole => 
 
 Definition slot_id (ring : list nat) (c : N) : nat := match slot ring c with Ok t => t | _ => (1000 + length ring)%nat end.
 Definition sum_nat (l : list nat) : nat := fold_right Nat.add O l.
+
+(* the fine-grained machine of the repaired cache (mutex explicit) run one call after the other:
+   14 actions are enough for one Get alone (fast path, Lock, 11 of the section, Unlock) *)
+Fixpoint f_history (s : fshared) (calls : list (str * bool)) : fshared * list (option (outcome str)) :=
+  match calls with
+  | [] => (s, [])
+  | (p, ok) :: r => let '(s1, ts) := run f_step (repeat O 14) s [f_init p ok] in
+                    let '(s2, os) := f_history s1 r in (s2, f_results ts ++ os)
+  end.
 
 Inductive case :=
 (* forced schedule on the real HTTPProxy: thread i requests [paths_i] on a redirect route with
@@ -86,8 +95,12 @@ Definition check_case (c : case) : N :=
       verdict same spec (if conc then Some 1%N else None) true
   | CGlobSeq size calls impl impl_l impl_h impl_n impl_keys =>
       let '(s, os) := gc_history (gc_new size) calls in
+      let '(fs, fos) := f_history (f_new size) calls in
       let same := all2 opt_out_eqb os impl && list_eqb beq (c_l s) impl_l && Nat.eqb (c_h s) impl_h
-                  && Nat.eqb (c_n s) impl_n && set_eq_str (m_keys (c_m s)) impl_keys in
+                  && Nat.eqb (c_n s) impl_n && set_eq_str (m_keys (c_m s)) impl_keys
+                  (* and the fine-grained machine agrees with the real code as well *)
+                  && all2 opt_out_eqb fos impl && list_eqb beq (c_l (f_c fs)) impl_l && Nat.eqb (c_h (f_c fs)) impl_h
+                  && Nat.eqb (c_n (f_c fs)) impl_n && set_eq_str (m_keys (c_m (f_c fs))) impl_keys && negb (f_lock fs) in
       let spec := all2 (fun (cl : str * bool) (o : outcome str) => if snd cl then oeq o (Ok (fst cl)) else oeq o (Err 1%N)) calls impl
                   && Nat.leb impl_n size && Nat.leb (length impl_keys) size
                   && incl_str impl_keys (firstn impl_n impl_l) in
